@@ -39,8 +39,8 @@ func (c16) Components() map[string]string {
 	}
 }
 
-var c16Plain = []string{"foo", "bar-1", "a.b", "x_y", "...", "..foo", "foo..", "with space", "back\\slash"}
-var c16Bad = []string{"..", ".", "", "../x", "../../x", "../../../x", "../../../../x", "../../../../../x", "a/../b", "a/b", "/abs", "x/..", "./foo", "foo/", "foo/../../x", "../foo", "..//x", "foo\x00bar", "\x00", strings.Repeat("a", 5000), strings.Repeat("../", 3) + "etc", "../" + strings.Repeat("b", 300), "foo/.", "./.", "../."}
+var c16Plain = []string{"foo", "bar-1", "a.b", "x_y", "...", "..foo", "foo..", "with space", "back\\slash", "..\\up", "notation-foo", "üñí", "-dash", "~tilde", "foo:bar", "%2e%2e"}
+var c16Bad = []string{"..", ".", "", "../x", "../../x", "../../../x", "../../../../x", "../../../../../x", "a/../b", "a/b", "/abs", "x/..", "./foo", "foo/", "foo/../../x", "../foo", "..//x", "foo\x00bar", "\x00", strings.Repeat("a", 5000), strings.Repeat("../", 3) + "etc", "../" + strings.Repeat("b", 300), "foo/.", "./.", "../.", "..\x00", "foo/\x00", "//", "/", "../../../../../../../../tmp/x", "foo//bar", ".//..", "a/./b", "\t/.."}
 
 func onePathComponent(name string) bool {
 	return name != "" && name != "." && name != ".." && !strings.ContainsAny(name, "/\x00")
